@@ -46,18 +46,18 @@ class Bindings(Harness):
     def run(self, env, inp, p):
         A, B, C = env.Parser(), env.Parser(), env.Parser()
         name = inp['name']
+        f = name if p['kind'] == 'variable' else (name + '(1)' if p['kind'] == 'function' else 'SUM(A1,B1:B2,va)')
+        # the reference outcome: a parser that evaluates before anything is registered anywhere in the process
+        fresh = C.parse(f)
         if p['kind'] == 'variable':
             A.set_variable(name, inp['v'])
-            f = name
         elif p['kind'] == 'function':
             A.set_function(name, lambda *a: inp['v'])
-            f = name + '(1)'
         else:
             for ev in ('callVariable', 'callCellValue', 'callRangeValue', 'callFunction'):
                 A.on(ev, lambda *a: a[-1](inp['v']))
-            f = 'SUM(A1,B1:B2,va)'
         onA = A.parse(f)
-        return [B.parse(f), C.parse(f), onA]
+        return [B.parse(f), fresh, onA]
 
     def post(self, env, inp, out, p):
         if isinstance(out, Raised):
